@@ -400,8 +400,13 @@ def rule_attrs(item, pc, keep_derive=None):
         pc.delete(s, e, "R-ATTR")
     if kept:
         pc.insert(t[item.vis_start].s, "#[derive(" + ", ".join(kept) + ")]\n", "R-ATTR", "derive filtered to " + ",".join(kept))
-    # helper attributes of dropped derives (`#[default]` on an enum variant)
-    if item.kind == "enum" and item.body_open is not None and not (kept and "Default" in kept):
+    # helper attributes of dropped derives (`#[default]` on an enum variant; `#[error(..)]`, `#[from]`, `#[source]` of thiserror::Error)
+    if item.kind in ("enum", "struct") and item.body_open is not None:
+        helpers = set()
+        if not (kept and "Default" in kept):
+            helpers.add("default")
+        if not (kept and "thiserror::Error" in kept):
+            helpers.update(("error", "from", "source", "backtrace"))
         i = item.body_open + 1
         while i < item.body_close:
             if t[i].text == "#":
@@ -409,8 +414,9 @@ def rule_attrs(item, pc, keep_derive=None):
                 if t[j].text == "[":
                     k = item.src.match(j)
                     inner = "".join(x.text for x in t[j + 1:k] if x.kind not in ("ws", "comment"))
-                    if inner == "default":
-                        pc.delete(t[i].s, t[k].e, "R-ATTR", "helper attribute of the dropped derive(Default)")
+                    head = re.match(r"\w+", inner)
+                    if head and head.group(0) in helpers and (inner == head.group(0) or inner[len(head.group(0))] == "("):
+                        pc.delete(t[i].s, t[k].e, "R-ATTR", "helper attribute of a dropped derive")
                     i = k
             i += 1
 
